@@ -179,7 +179,7 @@ func init() {
 
 // ---- hostile mutations -------------------------------------------------------------------------------
 
-var hostileScalars = []string{"", "~", "null", "nan", ".nan", ".NaN", ".inf", "-.inf", "0x", "0x1G", "1e999", "-1e999", "0o17", "1_000", "y", "n", "yes", "<<", "!!binary", "=", "0", "-0", "-1", "1.5", "9223372036854775808", "-9223372036854775809", "99999999999999999999999999", "1e-999", "true", "false", "TRUE", "${{", "}}", "${{ }}", "${{ github. }}", "${{ '", "${{ a[ }}", "${{ ((((((((((((((((((((((((((((((((((((((((( }}", "${{ !!!!!!!!!!!!!!!!!!!!!!!!!!!!!!!!!!!!!!!!!!!!!!!!!!a }}", "${{ a.*.*.*.*.*.*.*.*[0][0][0][0] }}", "${{ format('{', 1) }}", "${{ format('{0', 1) }}", "${{ format('{99999999999999999999}', 1) }}", "${{ format('}}{{', 1) }}", "${{ fromJSON('{') }}", "${{ fromJSON('[[[[[[[[[[[[[[[[[[[[[[[[[[[[[[[[[[[[[[[[[[[[[[[[[[') }}", "${{ fromJSON('{\"a\":{\"a\":{\"a\":{\"a\":null}}}}').a.a.a.a.a }}", "${{ 0x }}", "${{ 1e }}", "${{ 1. }}", "${{ -  }}", "${{ 'a'.b.c['d'].* }}", "${{ github['event']['x'][0][''] }}", "${{ contains() }}", "${{ hashFiles() }}", "${{ toJSON(toJSON(toJSON(toJSON(github)))) }}", "\x00", "\x1b[31m", "a\nb", "a\rb", "\u2028", "\u0085", "\ufeff", "%!s(", " [x]", ": 1:1: ", "*", "&", "*x", "&x", "!", "|", ">", "@", "`", "?", "- ", ": ", "#", "[", "]", "{", "}", ",", "'", "\"", "\\", "%", "docker://", "./", "./.", "../..", "a@", "@b", "a/b@", "a/b/c/d/e@f", "./a@b", "./.github/workflows/", "0 0 * * *", "* * * *", "@yearly", "*/0 * * * *", "60 24 32 13 8", "a-b-c", "A B", "=x", "1abc", "echo ::set-output name=a::b", "echo ::Set-Output name=a::b", "::SAVE-STATE name=a::b", "::set-env name=A::b", "::SET-ENV name=A::b", "::add-path::/x", "::ADD-PATH::/x", "BASH", "Python", "PWSH {0}", "Ubuntu-Latest", "WINDOWS-2022", "SELF-HOSTED", "PUSH", "Pull_Request", "READ-ALL", "Write", "DOCKER://a:b", "Actions/Checkout@V4", "NODE20", "Composite", "Inherit", "STRING", "Boolean", "CHOICE", strings.Repeat("a", 300), strings.Repeat("${{ github.sha }}", 50), strings.Repeat("[", 200), strings.Repeat("'", 101)}
+var hostileScalars = []string{"", "~", "null", "nan", ".nan", ".NaN", ".inf", "-.inf", "0x", "0x1G", "1e999", "-1e999", "0o17", "1_000", "y", "n", "yes", "<<", "!!binary", "=", "0", "-0", "-1", "1.5", "9223372036854775808", "-9223372036854775809", "99999999999999999999999999", "1e-999", "true", "false", "TRUE", "${{", "}}", "${{ }}", "${{ github. }}", "${{ '", "${{ a[ }}", "${{ ((((((((((((((((((((((((((((((((((((((((( }}", "${{ !!!!!!!!!!!!!!!!!!!!!!!!!!!!!!!!!!!!!!!!!!!!!!!!!!a }}", "${{ a.*.*.*.*.*.*.*.*[0][0][0][0] }}", "${{ format('{', 1) }}", "${{ format('{0', 1) }}", "${{ format('{99999999999999999999}', 1) }}", "${{ format('}}{{', 1) }}", "${{ fromJSON('{') }}", "${{ fromJSON('[[[[[[[[[[[[[[[[[[[[[[[[[[[[[[[[[[[[[[[[[[[[[[[[[[') }}", "${{ fromJSON('{\"a\":{\"a\":{\"a\":{\"a\":null}}}}').a.a.a.a.a }}", "${{ 0x }}", "${{ 1e }}", "${{ 1. }}", "${{ -  }}", "${{ 'a'.b.c['d'].* }}", "${{ github['event']['x'][0][''] }}", "${{ contains() }}", "${{ hashFiles() }}", "${{ toJSON(toJSON(toJSON(toJSON(github)))) }}", "\x00", "\x1b[31m", "a\nb", "a\rb", "\u2028", "\u0085", "\ufeff", "%!s(", " [x]", ": 1:1: ", "*", "&", "*x", "&x", "!", "|", ">", "@", "`", "?", "- ", ": ", "#", "[", "]", "{", "}", ",", "'", "\"", "\\", "%", "docker://", "./", "./.", "../..", "a@", "@b", "a/b@", "a/b/c/d/e@f", "./a@b", "./.github/workflows/", "0 0 * * *", "* * * *", "@yearly", "*/0 * * * *", "60 24 32 13 8", "a-b-c", "A B", "=x", "1abc", "テスト用のワークフローです ${{ github.evnt }}", "日本語日本語日本語日本語 ${{ github. }}", "ééééééééééééééééé ${{ zzz }} x", "😀😀😀😀😀😀😀😀 ${{ format('{0}') }}", "\u202e\u202e\u202e\u202e\u202e\u202e ${{ 1 == }}", "x }} ${{ github. }}", "'{\"a\":{\"b\":1}}' ${{ github.sha == }}", "${{ github.sha }} }} ${{ 1 + 2 }}", "echo ::set-output name=a::b", "echo ::Set-Output name=a::b", "::SAVE-STATE name=a::b", "::set-env name=A::b", "::SET-ENV name=A::b", "::add-path::/x", "::ADD-PATH::/x", "BASH", "Python", "PWSH {0}", "Ubuntu-Latest", "WINDOWS-2022", "SELF-HOSTED", "PUSH", "Pull_Request", "READ-ALL", "Write", "DOCKER://a:b", "Actions/Checkout@V4", "NODE20", "Composite", "Inherit", "STRING", "Boolean", "CHOICE", strings.Repeat("a", 300), strings.Repeat("${{ github.sha }}", 50), strings.Repeat("[", 200), strings.Repeat("'", 101)}
 
 var hostileTags = []string{"!!float", "!!int", "!!bool", "!!null", "!!str", "!!binary", "!!map", "!!seq", "!foo", "!", "!!timestamp", "!!merge", "!!set", "!!omap"}
 
